@@ -32,9 +32,75 @@ class Factory:
     def fail(self, code):
         raise KeyError(code)
 
+    def again(self, i):
+        # a second proxy to a value that is already hosted
+        return managed_list(self.made[i])
+
+    def adopt(self, name, obj):
+        # `obj` arrives as a proxy (or, for the local reference, as the object itself)
+        if not hasattr(self, 'held'):
+            self.held = {}
+        self.held[name] = obj
+
+    def via(self, name, op):
+        # call through the proxy this hosted object holds: a proxy used inside the server process
+        from harness.c14_procs import raw_op
+        r = raw_op(self.held[name], op)
+        return list(r) if isinstance(r, list) else r
+
+
+class WList(list):
+    """a list that can be referred to weakly"""
+
+
+class Maker:
+    """hosted class for the C13 histories: hands out managed() lists and refers to them only weakly, so that the proxies
+    are the only things keeping a made value (and whatever it contains) alive"""
+
+    def __init__(self):
+        self.made = []
+
+    def make_list(self, items):
+        import weakref
+        z = WList(items)
+        self.made.append(weakref.ref(z))
+        return managed_list(z)
+
+    def again(self, i):
+        # a second proxy to a value that is already hosted
+        z = self.made[i]()
+        if z is None:
+            raise LookupError(i)
+        return managed_list(z)
+
+    def nmade(self):
+        return len(self.made)
+
+
+class Factory2:
+    """registered under the same typeid 'Factory' on another manager class, with a different set of methods"""
+
+    def __init__(self):
+        self.n = 0
+
+    def bump(self, k):
+        self.n += k
+        return self.n
+
+    def only_here(self):
+        return 'factory2'
+
+
+class ServerProcess2(ServerProcess):
+    pass
+
 
 try:
     ServerProcess.register('Factory', Factory)
+    ServerProcess.register('Maker', Maker)
+    ServerProcess2.register('Factory2', Factory2)
+    ServerProcess2.unregister('Factory')
+    ServerProcess2.register('Factory', Factory2)
 except ValueError:
     pass
 
@@ -61,12 +127,16 @@ class Executor:
             self.slots[tag] = self.m.MemoryBlock(64)
             return self.slots[tag].name
         elif kind == 'factory':
-            self.slots[tag] = self.m.Factory()
+            self.slots[tag] = self.m.Maker()
         return None
 
     def op_create_managed(self, ftag, tag):
         # a hosted method returns managed(value): the answer is a live proxy to a value hosted in the server
         self.slots[tag] = self.slots[ftag].make_list([tag])
+
+    def op_again(self, ftag, idx, tag):
+        # the hosted method wraps a value that is already hosted: one more proxy to the same object
+        self.slots[tag] = self.slots[ftag].again(idx)
 
     def op_pickle(self, tag):
         return pickle.dumps(self.slots[tag]).hex()
